@@ -219,7 +219,13 @@ def well_nested():
                 stack.append(t)
             elif k <= 4 and stack:
                 i = draw(st.integers(0, len(stack) - 1))
-                t = stack.pop(i if draw(st.booleans()) else -1)
+                t = stack[i if draw(st.booleans()) else -1]
+                # an explicit close removes the most recent open tag that has the same normalised name
+                key = TAGS[t][0]
+                for j in range(len(stack) - 1, -1, -1):
+                    if TAGS[stack[j]][0] == key:
+                        del stack[j]
+                        break
                 evs.append(["close", t, draw(st.integers(0, 3))])
             elif k == 5 and stack:
                 stack.pop()
